@@ -404,7 +404,7 @@ def check_announced_lengths(ctx, prog, tag):
         ctx.floor("C16.T8 lengths announced to a serializer" + tag, n, 2)
 
 
-def check_searched_fields(ctx, prog, tag):
+def check_searched_fields(ctx, prog, tag, crates=("minijinja", "minijinja_contrib")):
     """T11 (round 10, seed C16-10): a lookup that binary-searches a field of its own object relies on an invariant of the
     *type* - the field is sorted - that every place constructing the type has to establish.  For every field that a
     method of the engine searches that way: each construction site of the type fills the field with a fresh empty
@@ -414,12 +414,30 @@ def check_searched_fields(ctx, prog, tag):
     from .. import query as _q
     fields = {}
     for f in prog.fns.values():
-        if f.crate not in ("minijinja", "minijinja_contrib") or f.kind == "closure":
+        if f.crate not in crates or f.kind == "closure":
             continue
+        # helpers of the program that binary-search a parameter (`find_location_record(records, idx)`): a call that hands
+        # them a field of `self` searches that field
+        def _searching_param(h):
+            for c2 in h.calls():
+                if "binary_search" in c2.name or c2.name.endswith("::partition_point"):
+                    for o2 in flow.origins(h, c2.args[0], through_calls=lambda k: 0 if k.name.endswith(("::deref", "::as_slice", "::as_ref")) else None):
+                        if o2.kind == "arg" and not [x for x in o2.proj if not x.startswith("as ")]:
+                            return o2.arg
+            return None
         for c in f.calls():
-            if "binary_search" not in c.name and not c.name.endswith("::partition_point"):
+            searched = None
+            if "binary_search" in c.name or c.name.endswith("::partition_point"):
+                searched = c.args[0]
+            else:
+                h = prog.fns.get(c.name)
+                if h is not None and h.crate in crates and h.kind != "closure":
+                    pi = _searching_param(h)
+                    if pi is not None and pi - 1 < len(c.args):
+                        searched = c.args[pi - 1]
+            if searched is None or "c" in searched:
                 continue
-            for o in flow.origins(f, c.args[0], through_calls=lambda k: 0 if k.name.endswith(("::deref", "::as_slice", "::as_ref")) else None):
+            for o in flow.origins(f, searched, through_calls=lambda k: 0 if k.name.endswith(("::deref", "::as_slice", "::as_ref")) else None):
                 if o.kind == "arg" and o.arg == 1 and o.proj:
                     adt = f.locals[1].get("adt")
                     if adt in ("alloc::sync::Arc", "alloc::rc::Rc", "alloc::boxed::Box"):
@@ -435,7 +453,7 @@ def check_searched_fields(ctx, prog, tag):
             continue
         names = [x["name"] for x in a["variants"][0]["fields"]]
         for (g, bb, i, rv) in _q.aggregates_of(prog, adt):
-            if g.crate not in ("minijinja", "minijinja_contrib"):
+            if g.crate not in crates:
                 continue
             idx = names.index(fld) if fld in names else (int(fld) if fld.isdigit() else None)
             if idx is None or idx >= len(rv["ops"]):
@@ -537,8 +555,8 @@ def run(ctx):
         check_handle_registry(ctx, prog, tag)
         check_announced_lengths(ctx, prog, tag)
         n11, nf11 = check_searched_fields(ctx, prog, tag)
-        ctx.floor("C16.T11 binary-searched fields" + tag, nf11, 1)
-        ctx.floor("C16.T11 construction sites of types with a searched field" + tag, n11, 1)
+        ctx.count("C16.T11 binary-searched fields" + tag, nf11)
+        ctx.count("C16.T11 construction sites of types with a searched field" + tag, n11)
     # positive control
     cprog = ctx.controls
     sub = ctx.fresh()
@@ -546,3 +564,6 @@ def run(ctx):
         check_char_filter(sub, cprog, cprog.fn(fpath), "C16.T1", "control", FORBIDDEN,
                           safe="mjsa_controls::c16::Value::from_safe_string")
     ctx.control("C16.T1", any(not o[2] for o in sub.obligations))
+    sub11 = ctx.fresh()
+    check_searched_fields(sub11, cprog, "control", crates=("mjsa_controls",))
+    ctx.control("C16.T11", any((not o[2]) and "raw" in o[1] for o in sub11.obligations) and any(o[2] and "sorted" in o[1] for o in sub11.obligations))
